@@ -47,3 +47,8 @@ CORPUS = [
         except (TimeoutError, asyncio.TimeoutError) as e:
             raise TimeoutError("Connect timeout.") from e""", "S"),
 ]
+# round 3: recursion whose depth the peer chooses
+CORPUS += [
+    M("read-skips-recursively", L, "        with memoryview(packet) as packet_mv:\n            return self._process_packet(packet_mv)",
+      "        if len(packet) > 5 and packet[5] & 0xF == 0x1 and not self._handshake_pending:\n            return await self.read(timeout=timeout)\n\n        with memoryview(packet) as packet_mv:\n            return self._process_packet(packet_mv)"),
+]
